@@ -17,8 +17,6 @@ Open Scope nat_scope.
 
 (* ================= 1. list facts ================= *)
 
-Definition nonl (l : bytes) : Prop := ~ In NL l.
-
 Lemma nonl_nil : nonl [].
 Proof. intros H. inversion H. Qed.
 
@@ -905,14 +903,11 @@ Proof.
   - tauto.
 Qed.
 
-(* the tester's verdict on the empty string only matters when Flush is used *)
-Definition flush_ok (ops : list op) : Prop := test [] = false \/ no_flush ops.
-
-Lemma flush_ok_tail : forall o ops, flush_ok (o :: ops) -> flush_ok ops.
+Lemma flush_ok_tail : forall o ops, flush_ok test (o :: ops) -> flush_ok test ops.
 Proof. intros o ops [H|H]; [left; assumption|right]. inversion H; assumption. Qed.
 
 Lemma run_ops_spec_gen : forall ops st carry out0 oc dl p b,
-  flush_ok ops -> 1 <= m_limit st -> 2 * b + 1 + m_limit st <= m_cap st ->
+  flush_ok test ops -> 1 <= m_limit st -> 2 * b + 1 + m_limit st <= m_cap st ->
   feed [] [] carry = (oc, dl, p) -> Abs st dl p ->
   bounded_ops test b carry ops ->
   exists st', run_ops test ops st (out0 ++ oc) = Ok (st', out0 ++ spec_ops test carry ops) /\
@@ -974,3 +969,474 @@ Proof.
       eapply same_params_trans; [apply same_params_set_buf|exact Hsp2].
 Qed.
 End Machine.
+
+(* ================= 7. the property lemmas ================= *)
+
+Lemma new_mlr_cap : forall min_buf limit, m_cap (new_mlr min_buf limit) = Nat.max min_buf (limit * 3).
+Proof. reflexivity. Qed.
+
+(* every script: the model is the specification *)
+Lemma script_lemma : forall test min_buf limit b ops,
+  flush_ok test ops -> 1 <= limit -> 2 * b + 1 + limit <= Nat.max min_buf (limit * 3) ->
+  bounded_ops test b [] ops ->
+  exists st', run_ops test ops (new_mlr min_buf limit) [] = Ok (st', spec_ops test [] ops).
+Proof.
+  intros test min_buf limit b ops Hf Hl Hc HB.
+  destruct (run_ops_spec_gen test ops (new_mlr min_buf limit) [] [] [] [] [] b Hf Hl Hc eq_refl) as (st' & Hrun & _).
+  - repeat split; [exact nonl_nil|constructor].
+  - assumption.
+  - exists st'. exact Hrun.
+Qed.
+
+Lemma spec_ops_reads : forall test fs carry rest,
+  spec_ops test carry (map OpRead fs ++ rest) = spec_ops test (carry ++ concat fs) rest.
+Proof.
+  induction fs as [|f fs IH]; intros carry rest; cbn [map app concat spec_ops].
+  - rewrite app_nil_r. reflexivity.
+  - rewrite IH, <- app_assoc. reflexivity.
+Qed.
+
+Lemma bounded_ops_reads : forall test b fs carry rest,
+  bounded_ops test b carry (map OpRead fs ++ rest) <-> bounded_ops test b (carry ++ concat fs) rest.
+Proof.
+  induction fs as [|f fs IH]; intros carry rest; cbn [map app concat bounded_ops].
+  - rewrite app_nil_r. tauto.
+  - rewrite IH, <- app_assoc. tauto.
+Qed.
+
+Lemma seg_bound_nil : forall test b, seg_bound test b [].
+Proof. intros. unfold seg_bound. cbn. constructor. Qed.
+
+Lemma seg_bound_prefix_bounded : forall test b x, seg_bound test b x -> prefix_bounded test b x.
+Proof. intros test b x H. exists []. rewrite app_nil_r. assumption. Qed.
+
+Lemma no_flush_reads : forall fs, no_flush (map OpRead fs ++ [OpFlushAll]).
+Proof.
+  intros fs. apply Forall_app. split.
+  - apply Forall_forall. intros o Ho. apply in_map_iff in Ho. destruct Ho as (f & <- & _). discriminate.
+  - repeat constructor. discriminate.
+Qed.
+
+(* 1. fragmentation independence: for ALL streams (terminated or not), ALL fragmentations *)
+Lemma frag_independent_lemma : forall test min_buf limit b fs,
+  1 <= limit -> 2 * b + 1 + limit <= Nat.max min_buf (limit * 3) ->
+  seg_bound test b (concat fs) ->
+  exists st', run_ops test (map OpRead fs ++ [OpFlushAll]) (new_mlr min_buf limit) [] =
+              Ok (st', frame test (concat fs)).
+Proof.
+  intros test min_buf limit b fs Hl Hc HB.
+  destruct (script_lemma test min_buf limit b (map OpRead fs ++ [OpFlushAll])) as (st' & Hrun); try assumption.
+  - right. apply no_flush_reads.
+  - apply bounded_ops_reads. cbn [app bounded_ops]. split; apply seg_bound_prefix_bounded; [assumption|apply seg_bound_nil].
+  - exists st'. rewrite Hrun, spec_ops_reads. cbn [app spec_ops]. unfold closed_segments. cbn. rewrite app_nil_r. reflexivity.
+Qed.
+
+(* two fragmentations of one stream *)
+Lemma frag_pair_lemma : forall test min_buf limit b fs1 fs2,
+  1 <= limit -> 2 * b + 1 + limit <= Nat.max min_buf (limit * 3) ->
+  concat fs1 = concat fs2 -> seg_bound test b (concat fs1) ->
+  exists st1 st2 out,
+    run_ops test (map OpRead fs1 ++ [OpFlushAll]) (new_mlr min_buf limit) [] = Ok (st1, out) /\
+    run_ops test (map OpRead fs2 ++ [OpFlushAll]) (new_mlr min_buf limit) [] = Ok (st2, out).
+Proof.
+  intros test min_buf limit b fs1 fs2 Hl Hc Heq HB.
+  destruct (frag_independent_lemma test min_buf limit b fs1 Hl Hc HB) as (st1 & H1).
+  rewrite Heq in HB. destruct (frag_independent_lemma test min_buf limit b fs2 Hl Hc HB) as (st2 & H2).
+  exists st1, st2, (frame test (concat fs1)). split; [assumption|]. rewrite Heq. assumption.
+Qed.
+
+(* 2. streams of single-line records: any reads, any flushes *)
+Lemma split_lines_unlines_app : forall la y, Forall nonl la ->
+  split_lines (unlines la ++ y) = (la ++ fst (split_lines y), snd (split_lines y)).
+Proof.
+  induction la as [|l la IH]; intros y H.
+  - cbn [unlines flat_map app]. destruct (split_lines y); reflexivity.
+  - inversion H; subst. rewrite unlines_cons, <- app_assoc. cbn [app].
+    rewrite split_lines_line by assumption. rewrite IH by assumption. reflexivity.
+Qed.
+
+Lemma valid_lines_nonl : forall test b ls, Forall (valid_line test b) ls -> Forall nonl ls.
+Proof. intros test b ls H. eapply Forall_impl; [|exact H]. intros l (_ & Hn & _). exact Hn. Qed.
+
+Lemma group_valid_lines : forall test b ls x, Forall (valid_line test b) ls -> group test [x] ls [] = x :: ls.
+Proof.
+  induction ls as [|l ls IH]; intros x H; [reflexivity|].
+  inversion H as [|? ? (Hne & _ & Ht & _) Hls]; subst. cbn [group].
+  assert (Hs : is_start test l = true) by (unfold is_start; destruct l; [congruence|assumption]).
+  rewrite Hs, IH by assumption. reflexivity.
+Qed.
+
+Lemma segments_valid_lines : forall test b ls, Forall (valid_line test b) ls -> segments test (unlines ls) = ls.
+Proof.
+  intros test b ls H. unfold segments.
+  rewrite <- (app_nil_r (unlines ls)), split_lines_unlines_app by (eapply valid_lines_nonl; eassumption).
+  cbn [split_lines fst snd]. rewrite app_nil_r. destruct ls as [|l ls]; [reflexivity|].
+  inversion H; subst. eapply group_valid_lines; eassumption.
+Qed.
+
+Lemma close_last_valid : forall test b ls, Forall (valid_line test b) ls -> close_last test ls = ls.
+Proof.
+  induction ls as [|l ls IH]; intros H; [reflexivity|].
+  inversion H as [|? ? (_ & _ & Ht & _) Hls]; subst. destruct ls as [|l2 ls].
+  - cbn. rewrite Ht. reflexivity.
+  - change (close_last test (l :: l2 :: ls)) with (l :: close_last test (l2 :: ls)). rewrite IH by assumption. reflexivity.
+Qed.
+
+Lemma frame_valid_lines : forall test b ls, Forall (valid_line test b) ls -> frame test (unlines ls) = ls.
+Proof. intros. unfold frame. erewrite segments_valid_lines by eassumption. eapply close_last_valid; eassumption. Qed.
+
+Lemma seg_bound_valid_lines : forall test b ls, Forall (valid_line test b) ls -> seg_bound test b (unlines ls).
+Proof.
+  intros test b ls H. unfold seg_bound. erewrite segments_valid_lines by eassumption.
+  eapply Forall_impl; [|exact H]. intros l (_ & _ & _ & Hl). exact Hl.
+Qed.
+
+Lemma spec_valid_lines : forall test b ops carry ls,
+  no_flush_all ops -> Forall (valid_line test b) ls -> carry ++ ops_text ops = unlines ls ->
+  spec_ops test carry (ops ++ [OpFlushAll]) = ls /\ bounded_ops test b carry (ops ++ [OpFlushAll]).
+Proof.
+  induction ops as [|op ops IH]; intros carry ls Hnf Hv Htext.
+  - cbn [ops_text] in Htext. rewrite app_nil_r in Htext. subst carry.
+    cbn [app spec_ops bounded_ops]. unfold closed_segments. cbn [segments split_lines removelast].
+    rewrite app_nil_r. split; [eapply frame_valid_lines; eassumption|].
+    split; apply seg_bound_prefix_bounded; [eapply seg_bound_valid_lines; eassumption|apply seg_bound_nil].
+  - inversion Hnf as [|? ? Hop Hnf']; subst. destruct op as [f| |]; [| |congruence].
+    + cbn [ops_text] in Htext. cbn [app spec_ops bounded_ops]. apply IH; [assumption|assumption|].
+      rewrite <- app_assoc. assumption.
+    + cbn [ops_text] in Htext. cbn [app spec_ops bounded_ops].
+      destruct (split_lines carry) as [la t] eqn:Es.
+      destruct (split_lines_decomp carry la t Es) as (Hc & Hla & Ht). cbn [snd].
+      assert (Hsplit : split_lines (unlines ls) = (la ++ fst (split_lines (t ++ ops_text ops)), snd (split_lines (t ++ ops_text ops)))).
+      { rewrite <- Htext, Hc, <- app_assoc. apply split_lines_unlines_app. assumption. }
+      assert (Hfull : split_lines (unlines ls) = (ls, [])).
+      { rewrite <- (app_nil_r (unlines ls)), split_lines_unlines_app by (eapply valid_lines_nonl; eassumption).
+        cbn [split_lines fst snd]. rewrite app_nil_r. reflexivity. }
+      rewrite Hfull in Hsplit. destruct (split_lines (t ++ ops_text ops)) as [lb t2] eqn:Eb.
+      cbn [fst snd] in Hsplit. injection Hsplit as Hls Ht2. subst t2.
+      destruct (split_lines_decomp _ _ _ Eb) as (Hb & _ & _). rewrite app_nil_r in Hb.
+      rewrite Hls in Hv. apply Forall_app in Hv. destruct Hv as [Hva Hvb].
+      destruct (IH t lb Hnf' Hvb Hb) as [Hspec Hbound].
+      rewrite Hspec, (frame_valid_lines test b la Hva). split; [symmetry; assumption|].
+      split; [|assumption]. exists (ops_text ops). rewrite Htext. eapply seg_bound_valid_lines.
+      rewrite Hls. apply Forall_app. split; assumption.
+Qed.
+
+Lemma single_line_lemma : forall test min_buf limit b ls ops,
+  test [] = false -> 1 <= limit -> 2 * b + 1 + limit <= Nat.max min_buf (limit * 3) ->
+  Forall (valid_line test b) ls -> no_flush_all ops -> ops_text ops = unlines ls ->
+  exists st', run_ops test (ops ++ [OpFlushAll]) (new_mlr min_buf limit) [] = Ok (st', ls).
+Proof.
+  intros test min_buf limit b ls ops Hnil Hl Hc Hv Hnf Htext.
+  destruct (spec_valid_lines test b ops [] ls Hnf Hv Htext) as [Hspec Hbound].
+  destruct (script_lemma test min_buf limit b (ops ++ [OpFlushAll])) as (st' & Hrun); try assumption.
+  - left. assumption.
+  - exists st'. rewrite Hrun, Hspec. reflexivity.
+Qed.
+
+(* 3. continuation lines *)
+Lemma open_segment_prefix : forall test y dl p, dl <> [] ->
+  exists more rest, future_segs test dl p y = (join NL dl ++ more) :: rest.
+Proof.
+  induction y as [|c y IH]; intros dl p Hd.
+  - unfold future_segs. cbn [feed app]. unfold seg_state. destruct dl as [|d dl0]; [congruence|].
+    set (dl := d :: dl0) in *.
+    assert (H : exists more, last_segment dl p = join NL dl ++ more).
+    { unfold last_segment. destruct p as [|c p]; [exists []; rewrite app_nil_r; reflexivity|].
+      exists (NL :: c :: p). rewrite join_snoc, (unlines_join dl Hd), <- app_assoc. reflexivity. }
+    destruct H as [more Hm]. exists more, []. destruct p; rewrite <- Hm; reflexivity.
+  - destruct (N.eq_dec c NL) as [->|Hc].
+    + rewrite future_segs_cons_NL. unfold close. destruct dl as [|d dl0]; [congruence|].
+      destruct (is_start test p); cbn [fst snd].
+      * exists [], (future_segs test [p] [] y). rewrite app_nil_r. reflexivity.
+      * cbn [app]. change (d :: dl0 ++ [p]) with ((d :: dl0) ++ [p]).
+        destruct (IH ((d :: dl0) ++ [p]) []) as (more & rest & H); [discriminate|].
+        exists (NL :: p ++ more), rest. rewrite H, join_snoc, (unlines_join (d :: dl0) Hd), <- !app_assoc. reflexivity.
+    + rewrite future_segs_cons_other by assumption. apply IH. assumption.
+Qed.
+
+Lemma feed_ends_NL : forall test x dl p o dl' p',
+  feed test dl p (x ++ [NL]) = (o, dl', p') -> p' = [].
+Proof.
+  intros test x dl p o dl' p' E. rewrite feed_app in E.
+  destruct (feed test dl p x) as [[o1 dl1] p1]. rewrite feed_NL in E.
+  destruct (close test dl1 p1) as [o2 dl2]. cbn [feed] in E. injection E as _ _ <-. reflexivity.
+Qed.
+
+Lemma continuation_spec_lemma : forall test x l c y,
+  (x = [] \/ exists x', x = x' ++ [NL]) ->
+  nonl l -> is_start test l = true -> nonl c -> is_start test c = false ->
+  exists more, In (l ++ NL :: c ++ more) (segments test (x ++ l ++ NL :: c ++ NL :: y)).
+Proof.
+  intros test x l c y Hx Hl Hsl Hc Hsc.
+  destruct (feed test [] [] x) as [[ox dlx] px] eqn:Ex.
+  assert (Hpx : px = []).
+  { destruct Hx as [->|[x' ->]]; [cbn in Ex; injection Ex as _ _ <-; reflexivity|].
+    eapply feed_ends_NL. exact Ex. }
+  subst px.
+  destruct (feed test [l; c] [] y) as [[o3 dl3] p3] eqn:E3.
+  assert (Eall : exists o1, feed test [] [] (x ++ l ++ NL :: c ++ NL :: y) = (ox ++ o1 ++ o3, dl3, p3)).
+  { rewrite feed_app, Ex. rewrite (feed_line test l _ dlx [] Hl). cbn [app].
+    assert (Hcl : exists o1, close test dlx l = (o1, [l])).
+    { unfold close. destruct dlx; [exists []; reflexivity|]. rewrite Hsl. eexists; reflexivity. }
+    destruct Hcl as [o1 Hcl]. rewrite Hcl. rewrite (feed_line test c _ [l] [] Hc). cbn [app close].
+    rewrite Hsc. cbn [app]. rewrite E3. exists o1. reflexivity. }
+  destruct Eall as [o1 Eall]. rewrite (segments_feed test _ _ _ _ Eall).
+  destruct (open_segment_prefix test y [l; c] []) as (more & rest & Hf); [discriminate|].
+  unfold future_segs in Hf. rewrite E3 in Hf. exists more.
+  rewrite <- !app_assoc. apply in_or_app. right. apply in_or_app. right.
+  rewrite Hf. left. cbn [join]. rewrite <- app_assoc. reflexivity.
+Qed.
+
+Lemma close_last_keeps : forall test segs r, In r segs -> test r = true -> In r (close_last test segs).
+Proof.
+  induction segs as [|x segs IH]; intros r Hin Ht; [contradiction|].
+  destruct segs as [|x2 segs].
+  - destruct Hin as [->|[]]. cbn. rewrite Ht. left. reflexivity.
+  - change (close_last test (x :: x2 :: segs)) with (x :: close_last test (x2 :: segs)).
+    destruct Hin as [->|Hin]; [left; reflexivity|right; apply IH; assumption].
+Qed.
+
+Lemma continuation_attached_lemma : forall test min_buf limit b fs x l c y,
+  1 <= limit -> 2 * b + 1 + limit <= Nat.max min_buf (limit * 3) ->
+  (forall a z, test a = true -> test (a ++ z) = true) ->
+  concat fs = x ++ l ++ NL :: c ++ NL :: y ->
+  seg_bound test b (concat fs) ->
+  (x = [] \/ exists x', x = x' ++ [NL]) ->
+  nonl l -> is_start test l = true -> nonl c -> is_start test c = false ->
+  exists st' out more,
+    run_ops test (map OpRead fs ++ [OpFlushAll]) (new_mlr min_buf limit) [] = Ok (st', out) /\
+    In (l ++ NL :: c ++ more) out.
+Proof.
+  intros test min_buf limit b fs x l c y Hlim Hcap Hpre Hs HB Hx Hl Hsl Hc Hsc.
+  destruct (frag_independent_lemma test min_buf limit b fs Hlim Hcap HB) as (st' & Hrun).
+  destruct (continuation_spec_lemma test x l c y Hx Hl Hsl Hc Hsc) as (more & Hin).
+  exists st', (frame test (concat fs)), more. split; [assumption|].
+  rewrite Hs. unfold frame. apply close_last_keeps; [assumption|].
+  apply Hpre. unfold is_start in Hsl. destruct l; [discriminate|assumption].
+Qed.
+
+(* 4. never full, never panics, never spins: ALL scripts, ALL streams *)
+Lemma total_lemma : forall test min_buf limit ops,
+  1 <= limit ->
+  exists st' out, run_ops test ops (new_mlr min_buf limit) [] = Ok (st', out) /\
+    length (m_buf st') <= m_cap st' /\
+    (m_limit st' <= m_cap st' - length (m_buf st') \/ m_buf st' = []) /\
+    m_cap st' = Nat.max min_buf (limit * 3) /\ m_limit st' = limit.
+Proof.
+  intros test min_buf limit ops Hl.
+  destruct (run_ops_inv test ops (new_mlr min_buf limit) []) as (st' & o & Hrun & (_ & Hcap & Hroomy) & [Hc Hlim]).
+  - assumption.
+  - cbn. lia.
+  - apply inv_new.
+  - exists st', o. split; [exact Hrun|]. split; [assumption|]. split; [exact Hroomy|]. split; assumption.
+Qed.
+
+(* a read never needs more Read() calls than it has bytes (each call takes at least one) *)
+
+(* the traced run used by the correspondence check is the same run *)
+Lemma run_ops_tr_lemma : forall test ops st out tr,
+  forget_trace (run_ops_tr test ops st out tr) = run_ops test ops st out.
+Proof.
+  induction ops as [|o ops IH]; intros st out tr; [reflexivity|].
+  cbn [run_ops_tr run_ops]. destruct (run_op test st o) as [[st' o']| |]; cbn [bindo]; [apply IH|reflexivity|reflexivity].
+Qed.
+
+(* runConnection: a connection without timeouts and deadline renewals *)
+Lemma conn_ops_data : forall fs, conn_ops (map (fun f => EvData f false) fs) = map OpRead fs ++ [OpFlushAll].
+Proof. induction fs as [|f fs IH]; [reflexivity|]. cbn [map conn_ops app]. rewrite IH. reflexivity. Qed.
+
+Lemma conn_frag_independent_lemma : forall test min_buf limit b fs,
+  1 <= limit -> 2 * b + 1 + limit <= Nat.max min_buf (limit * 3) ->
+  seg_bound test b (concat fs) ->
+  exists st', run_ops test (conn_ops (map (fun f => EvData f false) fs)) (new_mlr min_buf limit) [] =
+              Ok (st', frame test (concat fs)).
+Proof. intros. rewrite conn_ops_data. eapply frag_independent_lemma; eassumption. Qed.
+
+(* every script runConnection can produce ends with FlushAll and has no FlushAll before *)
+Lemma conn_ops_shape : forall evs, exists ops, conn_ops evs = ops ++ [OpFlushAll] /\ no_flush_all ops.
+Proof.
+  induction evs as [|[f r| |] evs (ops & IH & Hn)].
+  - exists []. split; [reflexivity|constructor].
+  - cbn [conn_ops]. rewrite IH. destruct r.
+    + exists (OpRead f :: OpFlush :: ops). split; [reflexivity|]. repeat constructor; try discriminate. assumption.
+    + exists (OpRead f :: ops). split; [reflexivity|]. constructor; [discriminate|assumption].
+  - cbn [conn_ops]. rewrite IH. exists (OpFlush :: ops). split; [reflexivity|]. constructor; [discriminate|assumption].
+  - exists []. split; [reflexivity|constructor].
+Qed.
+
+(* ================= 8. TestRecordStart ================= *)
+
+Lemma digit_not_gt : forall c, is_digit c = true -> N.eqb c 62 = false.
+Proof. intros c H. unfold is_digit in H. lia. Qed.
+
+Lemma trs_short : forall s, length s < 32 -> test_record_start s = Ok false.
+Proof. intros s H. unfold test_record_start. apply Nat.ltb_lt in H. rewrite H. reflexivity. Qed.
+
+Ltac trs_cases :=
+  repeat match goal with
+         | |- context [if ?b then _ else _] => let E := fresh "E" in destruct b eqn:E; cbn [negb bindo]
+         end.
+
+Lemma trs_total_lemma : forall s, exists b, test_record_start s = Ok b.
+Proof.
+  intros s. destruct (Nat.ltb (length s) 32) eqn:El.
+  - exists false. apply trs_short. apply Nat.ltb_lt. assumption.
+  - unfold test_record_start. rewrite El.
+    destruct s as [|c0 [|c1 [|c2 [|c3 [|c4 [|c5 [|c6 rest]]]]]]]; try (cbn in El; discriminate El).
+    cbn [oidx nth_error bindo trs_loop trs_tail Nat.add]. trs_cases; eexists; reflexivity.
+Qed.
+
+Lemma trs_shape_lemma : forall s, test_record_start s = Ok true <-> start_shape s.
+Proof.
+  intros s. split.
+  - intros H. destruct (Nat.ltb (length s) 32) eqn:El.
+    + rewrite trs_short in H by (apply Nat.ltb_lt; assumption). discriminate.
+    + assert (H32 : 32 <= length s) by (apply Nat.ltb_ge; assumption).
+      unfold test_record_start in H. rewrite El in H.
+      destruct s as [|c0 [|c1 [|c2 [|c3 [|c4 [|c5 [|c6 rest]]]]]]]; try (cbn in El; discriminate El).
+      split; [assumption|]. revert H.
+      cbn [oidx nth_error bindo trs_loop trs_tail Nat.add]. trs_cases; intros H; try discriminate H;
+        injection H as H;
+        rewrite ?negb_false_iff, ?negb_true_iff in *;
+        repeat match goal with E : N.eqb _ _ = true |- _ => apply N.eqb_eq in E; subst end.
+      * exists [c1], (c5 :: c6 :: rest).
+        split; [reflexivity|]. split; [cbn; lia|]. repeat constructor; assumption.
+      * exists [c1; c2], (c6 :: rest).
+        split; [reflexivity|]. split; [cbn; lia|]. repeat constructor; assumption.
+      * exists [c1; c2; c3], rest.
+        split; [reflexivity|]. split; [cbn; lia|]. repeat constructor; assumption.
+  - intros (H32 & ds & rest & Hs & Hlen & Hd).
+    assert (El : Nat.ltb (length s) 32 = false) by (apply Nat.ltb_ge; assumption).
+    unfold test_record_start. rewrite El. subst s.
+    destruct ds as [|d1 [|d2 [|d3 [|d4 ds]]]]; cbn [length] in Hlen; try lia.
+    + inversion Hd as [|? ? H1 _]; subst.
+      cbn [app oidx nth_error bindo trs_loop trs_tail Nat.add N.eqb Pos.eqb negb]. rewrite H1. reflexivity.
+    + inversion Hd as [|? ? H1 Hd2]; subst. inversion Hd2 as [|? ? H2 _]; subst.
+      cbn [app oidx nth_error bindo trs_loop trs_tail Nat.add N.eqb Pos.eqb negb].
+      rewrite H1, (digit_not_gt _ H2), H2. reflexivity.
+    + inversion Hd as [|? ? H1 Hd2]; subst. inversion Hd2 as [|? ? H2 Hd3]; subst. inversion Hd3 as [|? ? H3 _]; subst.
+      cbn [app oidx nth_error bindo trs_loop trs_tail Nat.add N.eqb Pos.eqb negb].
+      rewrite H1, (digit_not_gt _ H2), H2, (digit_not_gt _ H3), H3. reflexivity.
+Qed.
+
+Lemma trs_spec_lemma : forall s, trs s = true <-> start_shape s.
+Proof.
+  intros s. rewrite <- trs_shape_lemma. unfold trs. destruct (trs_total_lemma s) as [b ->].
+  split; [intros ->; reflexivity|intros H; injection H; trivial].
+Qed.
+
+Lemma trs_nil : trs [] = false.
+Proof. reflexivity. Qed.
+
+Lemma trs_prefix_lemma : forall a z, trs a = true -> trs (a ++ z) = true.
+Proof.
+  intros a z H. apply trs_spec_lemma in H. apply trs_spec_lemma.
+  destruct H as (H32 & ds & rest & -> & Hlen & Hd). split.
+  - rewrite app_length. lia.
+  - exists ds, (rest ++ z). split; [|split; assumption].
+    cbn [app]. rewrite <- app_assoc. reflexivity.
+Qed.
+
+Lemma gt_prefix_lemma : forall a z, gt_test a = true -> gt_test (a ++ z) = true.
+Proof. intros [|c a] z H; [discriminate|exact H]. Qed.
+
+(* ================= 9. witnesses and the example ================= *)
+
+Lemma seg_bound_dec : forall test b s,
+  forallb (fun r => length r <=? b) (segments test s) = true -> seg_bound test b s.
+Proof.
+  intros test b s H. unfold seg_bound. apply Forall_forall. intros r Hr.
+  rewrite forallb_forall in H. apply Nat.leb_le. apply H. assumption.
+Qed.
+
+(* ">a" NL "b" NL ">c" NL with the '>' tester *)
+Definition ex_f1 : bytes := [62;97;10]%N.
+Definition ex_f2 : bytes := [98;10;62;99;10]%N.
+
+(* a flush between a record and its continuation line detaches the line *)
+Lemma flush_splits_lemma :
+  exists min_buf limit b f1 f2,
+    1 <= limit /\ 2 * b + 1 + limit <= Nat.max min_buf (limit * 3) /\ seg_bound gt_test b (f1 ++ f2) /\
+    exists st out,
+      run_ops gt_test [OpRead f1; OpFlush; OpRead f2; OpFlushAll] (new_mlr min_buf limit) [] = Ok (st, out) /\
+      out <> frame gt_test (f1 ++ f2).
+Proof.
+  exists 32, 8, 8, ex_f1, ex_f2. split; [lia|]. split; [cbn; lia|]. split; [apply seg_bound_dec; reflexivity|].
+  eexists _, _. split; [vm_compute; reflexivity|]. vm_compute. discriminate.
+Qed.
+
+(* with the smallest buffer the constructor allows (3 * limit) records of exactly [limit] bytes
+   overflow: the bound 2*b+1+limit <= cap of the theorems cannot be dropped *)
+Definition ex_g1 : bytes := [62;97;10;62;98]%N.
+Definition ex_g2 : bytes := [10;62;99;10]%N.
+
+Lemma cap3_boundary_lemma :
+  exists min_buf limit fs,
+    1 <= limit /\ Nat.max min_buf (limit * 3) = limit * 3 /\ seg_bound gt_test limit (concat fs) /\
+    exists st out,
+      run_ops gt_test (map OpRead fs ++ [OpFlushAll]) (new_mlr min_buf limit) [] = Ok (st, out) /\
+      out <> frame gt_test (concat fs).
+Proof.
+  exists 0, 2, [ex_g1; ex_g2]. split; [lia|]. split; [reflexivity|]. split; [apply seg_bound_dec; reflexivity|].
+  eexists _, _. split; [vm_compute; reflexivity|]. vm_compute. discriminate.
+Qed.
+
+(* a segment above the bound: the records depend on the fragmentation (the soft limit at work) *)
+Definition ex_big : bytes := [62;97;98;99;100;101;102;103;104;105;106;107;108;109;110;111;112;10;62;120;10]%N.
+
+Lemma oversize_lemma :
+  exists min_buf limit fs1 fs2,
+    1 <= limit /\ concat fs1 = concat fs2 /\
+    exists st1 out1 st2 out2,
+      run_ops gt_test (map OpRead fs1 ++ [OpFlushAll]) (new_mlr min_buf limit) [] = Ok (st1, out1) /\
+      run_ops gt_test (map OpRead fs2 ++ [OpFlushAll]) (new_mlr min_buf limit) [] = Ok (st2, out2) /\
+      out1 <> out2.
+Proof.
+  exists 0, 2, [ex_big], [firstn 5 ex_big; skipn 5 ex_big]. split; [lia|]. split; [reflexivity|].
+  eexists _, _, _, _. split; [vm_compute; reflexivity|]. split; [vm_compute; reflexivity|]. discriminate.
+Qed.
+
+(* the example: two syslog records, the first with a continuation line, production ratio 4:1 *)
+Definition ex_r1 : bytes := [60;49;51;62;49;32;50;48;49;57;45;48;56;45;49;53;84;49;53;58;53;48;58;52;54;43;48;51;58;48;48;32;104;32;97;32;49;32;102;32;45;32;70;105;114;115;116]%N.
+Definition ex_c1 : bytes := [32;32;83;101;99;111;110;100;32;108;105;110;101]%N.
+Definition ex_r2 : bytes := [60;49;54;51;62;49;32;50;48;49;57;45;48;56;45;49;53;84;49;53;58;53;49;58;52;54;43;48;51;58;48;48;32;104;32;97;32;50;32;102;32;45;32;78;101;120;116]%N.
+Definition ex_stream : bytes := ex_r1 ++ NL :: ex_c1 ++ NL :: ex_r2 ++ [NL].
+(* cut inside the header, just before a newline, just after a newline, inside the relocated tail *)
+Definition ex_frags : list bytes :=
+  [firstn 3 ex_stream; firstn 44 (skipn 3 ex_stream); firstn 1 (skipn 47 ex_stream);
+   firstn 20 (skipn 48 ex_stream); []; skipn 68 ex_stream].
+
+Lemma example_lemma :
+  concat ex_frags = ex_stream /\ seg_bound trs 64 ex_stream /\ 2 * 64 + 1 + 64 <= Nat.max 256 (64 * 3) /\
+  frame trs ex_stream = [ex_r1 ++ NL :: ex_c1; ex_r2] /\
+  exists st, run_ops trs (map OpRead ex_frags ++ [OpFlushAll]) (new_mlr 256 64) [] =
+             Ok (st, [ex_r1 ++ NL :: ex_c1; ex_r2]).
+Proof.
+  split; [vm_compute; reflexivity|]. split; [apply seg_bound_dec; vm_compute; reflexivity|].
+  split; [cbn; lia|]. split; [vm_compute; reflexivity|]. eexists. vm_compute. reflexivity.
+Qed.
+
+(* ================= 10. NetConnWrapper: deadline renewals ================= *)
+Open Scope Z_scope.
+
+Lemma ncw_read_zero : forall d now, 0 < d ->
+  ncw_read (wrap_net_conn d) now = ({| w_min := d; w_max := d * 2; w_deadline := Some (now + d * 2) |}, true).
+Proof. intros d now H. unfold ncw_read, wrap_net_conn. cbn [w_min w_max w_deadline]. destruct (0 <? d) eqn:E; [reflexivity|lia]. Qed.
+
+(* after a renewal at time t0 no Read within the next readTimeout renews the deadline again,
+   so runConnection calls no Flush for a deadline update during that time *)
+Lemma ncw_quiet_lemma : forall gaps w t0 now,
+  0 < w_min w -> w_max w = w_min w * 2 -> w_deadline w = Some (t0 + w_max w) ->
+  t0 <= now -> Forall (fun g => 0 <= g) gaps -> now + fold_right Z.add 0 gaps <= t0 + w_min w ->
+  ncw_run w now gaps = map (fun _ => false) gaps.
+Proof.
+  induction gaps as [|g gaps IH]; intros w t0 now Hmin Hmax Hd Hnow Hg Hsum; [reflexivity|].
+  inversion Hg as [|? ? Hg0 Hg']; subst. cbn [fold_right] in Hsum.
+  assert (Hrest : 0 <= fold_right Z.add 0 gaps).
+  { clear - Hg'. induction gaps as [|x gaps IHg]; [cbn; lia|]. inversion Hg'; subst. cbn [fold_right]. specialize (IHg H2). lia. }
+  cbn [ncw_run map]. unfold ncw_read. rewrite Hd.
+  destruct (0 <? w_min w) eqn:E0; [|lia].
+  destruct (t0 + w_max w - (now + g) <? w_min w) eqn:E1; [lia|].
+  f_equal. apply (IH w t0 (now + g)); try assumption; lia.
+Qed.
+Close Scope Z_scope.
